@@ -7,7 +7,7 @@ import socket as _socket
 from .world import World, BASE_LATENCY
 from .kernel import K, ENOMEM, EINVAL, EEXIST, ESRCH, ENOBUFS
 
-ERRNOS = {'ENOMEM': ENOMEM, 'EINVAL': EINVAL, 'EEXIST': EEXIST, 'ESRCH': ESRCH, 'ENOBUFS': ENOBUFS}
+ERRNOS = {'ENOMEM': ENOMEM, 'EINVAL': EINVAL, 'EEXIST': EEXIST, 'ESRCH': ESRCH, 'ENOBUFS': ENOBUFS, 'EPERM': 1}
 
 
 def shared_children(world, a='A', b='B'):
@@ -95,6 +95,11 @@ def apply_op(world, op, ctx=None):
         if n.state != 'running' or n.control is None:
             return          # not in its event loop yet: start-up failures are not what this fault is for
         n.kernel.inject[n.kernel.req_no + op.get('nth', 1)] = ERRNOS[op.get('errno', 'ENOMEM')]
+    elif kind == 'kerr_boot':
+        # the kernel refuses the nth netlink request of the incarnation that is about to start (flush, NEWPOLICY)
+        n = w.nodes[op['node']]
+        if n.state == 'down':
+            n.kernel.inject[n.kernel.req_no + op.get('nth', 1)] = ERRNOS[op.get('errno', 'ENOMEM')]
     elif kind == 'sendfail':
         n = w.nodes[op['node']]
         if n.state != 'running':
